@@ -142,3 +142,40 @@ def _touch(s):
             getattr(s, name)
         except Exception:
             pass
+
+
+def scaled_exactly(x, y, k):
+    """x == k*y bit for bit wherever k*y is a normal number: scaling by a power of two commutes with every rounding of + - * /
+    (and with sqrt for even powers) except gradual underflow and overflow, so a quantity that is homogeneous of degree one in its
+    input must reproduce this EXACTLY, also for k = 2^-600 or 2^+600 (guards against 'no energy' shortcuts, squared magnitudes that
+    under/overflow, absolute tolerances)"""
+    x = np.asarray(x)
+    y = np.asarray(y)
+    if x.shape != y.shape:
+        return False
+    with np.errstate(over='ignore', under='ignore', invalid='ignore'):
+        ky = k * y
+    if not np.all(np.isfinite(ky)):
+        return bool(np.all(np.isfinite(x) == np.isfinite(ky)))
+    # exact wherever both the base value and the scaled value are far above the subnormal range (a base value that went subnormal --
+    # a heavily damped stiff oscillator decays below 1e-308 within a record -- has lost bits that the scaled run still has)
+    normal = (np.abs(ky) > 1e-250) & (np.abs(y) > 1e-250)
+    return bool(np.array_equal(x[normal], ky[normal]) and np.all(np.abs(x[~normal] - ky[~normal]) <= 1e-250 * max(1.0, abs(k))))
+
+
+EXTREME_POW2 = (-600, 600, -350, 350)
+
+
+def narrow_int_variants(v):
+    """whole-number records (|x| <= 3) blown up so that differences / products of neighbouring samples overflow the dtype if the
+    arithmetic were done in it: int32 x 100000, int16 x 200, int64 x 3e9, int8 x 40; uint16 (shifted to be non-negative) x 200.
+    (label, integer ndarray, the same numbers as float64)"""
+    a = np.asarray(v, dtype=float)
+    if not (a.size and np.all(a == np.round(a)) and np.max(np.abs(a)) <= 3):
+        return []
+    out = []
+    for label, dt, fac, shift in (('int32x1e5', np.int32, 100000, 0), ('int16x200', np.int16, 200, 0), ('int64x3e9', np.int64, 3000000000, 0),
+                                  ('int8x40', np.int8, 40, 0), ('uint16x200', np.uint16, 200, 3), ('uint8x40', np.uint8, 40, 3)):
+        f = (a + shift) * fac
+        out.append((label, f.astype(dt), f.copy()))
+    return out
